@@ -20,7 +20,8 @@
        of the running one (no effect when it is not more precise);
      - every presented document total is rounded to c decimals.
    Places where the rounding points of the implementation are NOT the ones the property documents
-   are flagged "(!)" below; Calc/IdealProofs.v proves a `_refuted` witness for each.
+   are flagged "(!)" below; Calc/IdealBoundProofs.v has `_refuted` witnesses for the conversion, the
+   breakdown price and the double rounding under 'currency'.
 
    Definitions only - no proofs in this file. *)
 From Coq Require Import ZArith QArith List Bool.
@@ -120,15 +121,17 @@ Definition s_item_price (cur : Z) (rates : list xrate) (it : item) : option fig 
 Definition s_base (b : amount) : fig :=
   if cr then mkF (R c (toQ b)) c else raise (c + 2) (of_amount b).
 
-(* (!) a rate x quantity charge is rounded at the decimals the RATE was written with *)
-Definition s_row (sum : fig) (qty : Q) (is_charge : bool) (d : ldc) : fig :=
+(* a rate x quantity charge is the EXACT product, carried at (decimals of the rate) + (decimals of
+   the quantity); the quantity is the row's own when given, else the line's *)
+Definition s_row (sum : fig) (qty : fig) (is_charge : bool) (d : ldc) : fig :=
   let a1 := match nonzero_pct (ld_pct d) with
             | Some p => prod (match ld_base d with None => sum | Some b => s_base b end) p
             | None => of_amount (ld_amount d)
             end in
   settle (if is_charge then
             match ld_rate d with
-            | Some r => prod (of_amount r) (match ld_qty d with Some q => toQ q | None => qty end)
+            | Some r => let q := match ld_qty d with Some q => of_amount q | None => qty end in
+                        mkF (toQ r * fq q) (exp r + fp q)
             | None => a1
             end
           else a1).
@@ -144,8 +147,8 @@ Definition s_sub (cur : Z) (rates : list xrate) (sl : subline) : option isub :=
   match s_item_price cur rates (sl_item sl) with
   | None => None
   | Some sp =>
-    let q := toQ (sl_qty sl) in
-    let sum := settle (prod (if cr then sp else raise (c + 2) sp) q) in
+    let q := of_amount (sl_qty sl) in
+    let sum := settle (prod (if cr then sp else raise (c + 2) sp) (fq q)) in
     let ds := map (s_row sum q false) (sl_discounts sl) in
     let cs := map (s_row sum q true) (sl_charges sl) in
     Some (mkIS sp sum (s_total sum ds cs) ds cs)
@@ -174,8 +177,8 @@ Definition s_line (cur : Z) (rates : list xrate) (l : line) : option iline :=
     match price0 with
     | None => None
     | Some price =>
-      let q := toQ (ln_qty l) in
-      let sum := settle (prod (raise wmin price) q) in
+      let q := of_amount (ln_qty l) in
+      let sum := settle (prod (raise wmin price) (fq q)) in
       let ds := map (s_row sum q false) (ln_discounts l) in
       let cs := map (s_row sum q true) (ln_charges l) in
       Some (mkIL price sum (s_total sum ds cs) ds cs subs)
